@@ -280,7 +280,7 @@ pub fn check_generic(j: &Job, c: &Case, l: &mut Local) -> CaseResult {
     Ok(())
 }
 
-fn jobs(pow2: bool) -> Vec<Job> {
+pub fn jobs(pow2: bool) -> Vec<Job> {
     let c = cat();
     let mut v = Vec::new();
     for g in ["core", "write"] {
